@@ -540,6 +540,18 @@ def _to_c_expr(
             if isinstance(n.op, ast.Div):
                 # Python's ``/`` is true division even for two ints
                 return f"(static_cast<float>({emit(n.left)}) / {emit(n.right)})"
+            if isinstance(n.op, (ast.FloorDiv, ast.Mod)):
+                # Python rounds the quotient towards negative infinity and the
+                # remainder takes the sign of the divisor; C truncates.  The braces
+                # keep Python's left-to-right evaluation of the operands.
+                _mark_helper("arith")
+                helper = "__redu_floordiv" if isinstance(n.op, ast.FloorDiv) else "__redu_mod"
+                operand_types = (_infer_arg_type(n.left), _infer_arg_type(n.right))
+                cast = "float" if "float" in operand_types else "long"
+                return (
+                    f"{helper}(__redu_operands<{cast}>{{static_cast<{cast}>({emit(n.left)}), "
+                    f"static_cast<{cast}>({emit(n.right)})}})"
+                )
             return f"({emit(n.left)} {_BIN[type(n.op)]} {emit(n.right)})"
 
         if isinstance(n, ast.UnaryOp) and type(n.op) in _UN:
@@ -1873,6 +1885,12 @@ def _handle_assignment_ast(
         )
         var_types[target.id] = inferred_type
         vars_env[target.id] = _ExprStr(target.id)
+        if isinstance(stmt.op, (ast.Div, ast.FloorDiv, ast.Mod)):
+            # same lowering as the binary operator (true division, floor division, modulo)
+            py_symbol = {ast.Div: "/", ast.FloorDiv: "//", ast.Mod: "%"}[type(stmt.op)]
+            combined = _to_c_expr(f"{target.id} {py_symbol} ({rhs_src})", vars_env, ctx)
+            nodes.append(VarAssign(name=target.id, expr=combined))
+            return nodes
         nodes.append(VarAssign(name=target.id, expr=f"({target.id} {op_symbol} {rhs_c})"))
         return nodes
 
